@@ -79,6 +79,20 @@ def gen_history(rng, length):
                          "dest": f"dest{counter}"})
         else:
             hist.append({"op": "magnet", "meta": rng.choice(metas)})
+    # epilogues: the same question asked again after the content changed under it
+    counter += 1
+    last = [rng.choice(["a2", "v2", "a3", "v1"]) for _ in range(2)]
+    pl2 = None if auto else rng.choice([16384, 32768])
+    hist += [
+        {"op": "create", "kind": last[0], "path": "p", "out": f"e{counter}a.torrent", "pl": pl2},
+        {"op": "recheck", "meta": f"e{counter}a.torrent", "content": "p", "reuse": True},
+        {"op": "rebuild", "metas": [f"e{counter}a.torrent"], "contents": ["p"], "dest": f"edest{counter}a"},
+        {"op": "fs", "kind": "rewrite-same-size", "rel": sorted(present)[0], "seed": counter + 77},
+        {"op": "recheck", "meta": f"e{counter}a.torrent", "content": "p", "reuse": True},
+        {"op": "create", "kind": last[0], "path": "p", "out": f"e{counter}b.torrent", "pl": pl2},
+        {"op": "rebuild", "metas": [f"e{counter}b.torrent"], "contents": ["p"], "dest": f"edest{counter}b"},
+        {"op": "recheck", "meta": f"e{counter}b.torrent", "content": f"edest{counter}b"},
+    ]
     return hist
 
 
